@@ -186,10 +186,12 @@ def main(argv=None):
             module.init_worker(args.tier)
         violations = list(pre_violations)
         known_lines = []
+        nwit = 0
         for e in known:
             w = e.get("witness")
             if not w:
                 continue
+            nwit += 1
             try:
                 v = harness.replay_case(module, w["sub"], w["case"])
             except Exception:
@@ -230,7 +232,7 @@ def main(argv=None):
         # -------------------------------------------------- merge
         cov = {"evaluations": 0, "distinct_nontrivial": 0, "rule": module.RULE, "samples": [],
                "labels": {}, "per_sub": {}, "excluded_known": 0, "inconclusive": 0,
-               "regression_cases_replayed": nreg}
+               "regression_cases_replayed": nreg, "known_finding_witnesses_replayed": nwit}
         nontriv = {}
         exhaustive_subs = []
         for r in results:
